@@ -3,17 +3,22 @@
 Specification: spec/AstTree.tla (the plain tree and every Node operation as a pure function),
 spec/AstNode.tla (implementation-shaped container: raw/lazy/loaded, tombstones, l, key index;
 TLC checks it refines AstTree), spec/GenAst.tla (operation sequences with required observations),
-spec/trace/TraceAst.tla (monitor for recorded sequences, with named deviations).
+spec/trace/TraceAst.tla (monitor for recorded sequences, with named deviations), spec/AstCast.tla (the typed
+accessors - Bool/Int64/Float64/Number/String, their Strict forms, Len, Type - as one function of the value a node
+denotes; TLC checks coherence between JSON values and wrapped Go values, and that the as-built variants violate it).
 
 Binding: (a) every GenAst behaviour replayed on real nodes created seven ways; (b) seeded long
 sequences on documents crossing the 16-slot / 16-pair thresholds recorded (with hook H4) and
-validated by TLC.
+validated by TLC; (c) every AstCast state replayed on nodes denoting the value in every representation (raw, lazily
+located, loaded, constructed, decoded, put into a tree and read back, wrapped by NewAny / SetAny / AddAny / SetAnyByIndex
+with every Go kind holding the value), before and after other reads of the same node.
 """
 import json
 import os
 import re
 
 from .. import vf
+from . import castcommon
 
 
 def refinement(ctx):
@@ -85,7 +90,9 @@ def traces(ctx, known):
 def check(ctx):
     vf.build_harness(ctx)
     known = vf.load_known(ctx.prop)
-    mc, rep, tr = vf.parallel([lambda: refinement(ctx), lambda: replay(ctx), lambda: traces(ctx, known)], nthreads=2)
+    mc, rep, tr, cast = vf.parallel([lambda: refinement(ctx), lambda: replay(ctx), lambda: traces(ctx, known), lambda: castcommon.run(ctx, "all")],
+                                    nthreads=2)
+    castcommon.judge(ctx, cast)
     for s in rep:
         for c in s.get("crashes") or []:
             if c.startswith("unconfirmed"):
@@ -110,10 +117,10 @@ def check(ctx):
     for s in rep:
         samples.extend(s.get("samples") or [])
     cov = {
-        "states": sum(r["distinct"] for r in mc) + sum(s["tlc"]["distinct"] for s in rep),
+        "states": sum(r["distinct"] for r in mc) + sum(s["tlc"]["distinct"] for s in rep) + cast["tlc"]["distinct"],
         "transitions": sum(r["generated"] for r in mc) + sum(s["tlc"]["generated"] for s in rep),
         "traces_validated_against_impl": tr["traces"],
-        "evaluations": sum(s["evals"] for s in rep) + tr["ops"],
+        "evaluations": sum(s["evals"] for s in rep) + tr["ops"] + cast["evals"],
         "distinct_nontrivial": sum(s["distinct_nontrivial"] for s in rep),
         "rule": "GenAst state = (document, operation sequence with paths, required observations, final tree); each replayed on nodes "
                 "created by NewRaw, NewRawConcurrentRead, GetFromString, UnmarshalJSON, sonic.Unmarshal, constructors and NewRaw+LoadAll, "
@@ -123,6 +130,7 @@ def check(ctx):
         "model_check": [{"cfg": r["name"], "distinct": r["distinct"], "generated": r["generated"], "wall_s": r["wall_s"]} for r in mc],
         "replay": [{k: s[k] for k in ("constants", "tlc", "cases", "evals", "wall_s")} for s in rep],
         "trace_validation": tr,
+        "typed_accessors": castcommon.coverage(cast),
     }
     return vf.finish(ctx, "model_checking", cov, assumptions=[
         "documents and operation alphabets of the exhaustive part are the finite sets in spec/GenAst.tla; larger documents (up to 40 children, "
